@@ -566,7 +566,7 @@ func (g *genState) oracleMsgs() []Event {
 			}
 			m := *vote
 			m.Feeder = feeder
-			m.ValUpper = r.Chance(5)
+			m.ValUpper = r.Chance(12)
 			if r.Chance(5) {
 				m.Salt = m.Salt + "x" // does not open the commitment
 			}
@@ -574,7 +574,14 @@ func (g *genState) oracleMsgs() []Event {
 				m.Round = id + 1
 			}
 			out = append(out, Event{Kind: "otx", Msgs: []Msg{m}})
-			if !r.Chance(10) {
+			// the reveal is sometimes sent again (at once or in a later block of the window): a prevote opens once,
+			// under whatever spelling of the validator address the reveal used
+			if m.ValUpper && r.Chance(50) {
+				m2 := m
+				m2.ValUpper = r.Chance(50)
+				out = append(out, Event{Kind: "otx", Msgs: []Msg{m2}})
+			}
+			if !r.Chance(10) && !(m.ValUpper && r.Chance(50)) {
 				delete(g.commits, v)
 			}
 		}
